@@ -96,6 +96,26 @@ def run_verus_unit(uname, ucfg, tier, scratch):
         rlimit = (rlimit or 10) * 2
     t0 = time.time()
     vr = vrun.run_unit(unit, REPO, scratch, rlimit=rlimit)
+    # A proof found under any SMT seed is a proof. If some obligation fails, retry with other
+    # seeds (and a doubled resource limit) before reporting it: a flaky solver run must not
+    # become an alarm. The thorough tier always runs all seeds and records instability.
+    seeds_tried = [0]
+    unstable = []
+    extra_seeds = [11, 23] if (vr.status == "failed" or tier == "thorough") else []
+    for sd in extra_seeds:
+        vr2 = vrun.run_unit(unit, REPO, scratch, rlimit=(rlimit or 10) * 2,
+                            extra_args=("--smt-option", f"smt.random_seed={sd}"))
+        seeds_tried.append(sd)
+        if vr2.status in ("ok", "failed") and vr.status in ("ok", "failed"):
+            f1 = sorted(set(f["function"] or "" for f in vr.failures))
+            f2 = sorted(set(f["function"] or "" for f in vr2.failures))
+            if f1 != f2:
+                unstable.append({"seed": sd, "failed_before": f1, "failed_now": f2})
+            # keep the run with fewer failing functions
+            if len(f2) < len(f1):
+                vr = vr2
+        if vr.status == "ok" and tier != "thorough":
+            break
     obs = []
     out = {"unit": uname, "backend": "verus", "obligations": obs, "status": "ok", "reason": "",
            "functions": [], "assumption_scan": [], "wall_s": 0.0, "cmd": vr.cmd, "tool": "verus " + vr.version,
@@ -152,6 +172,8 @@ def run_verus_unit(uname, ucfg, tier, scratch):
         out["reason"] = "supporting lemma/spec failed (machinery, not code): " + ", ".join(support_failed) + \
                         " " + "; ".join(f["message"] for f in unowned)[:300]
         out["detail"] = "\n".join(f["rendered"] for f in unowned)[:4000]
+    out["smt_seeds_tried"] = seeds_tried
+    out["unstable"] = unstable
     out["n_support"] = len([k for k in fnres if not any(k.endswith("::" + s) for s in declared) and not k.endswith("verif_canary")])
     out["verus_verified"] = vr.verified
     out["verus_errors"] = vr.errors
@@ -377,6 +399,8 @@ def build_evidence(pid, pcfg, tier, unit_outs, obligations, violations, known_hi
         "assumption_scan": scan,
         "not_decided": pcfg.get("not_decided", []),
         "canaries": {uo["unit"]: uo["canary_failed"] for uo in unit_outs},
+        "smt_seeds_tried": {uo["unit"]: uo.get("smt_seeds_tried") for uo in unit_outs if uo["backend"] == "verus"},
+        "unstable_proofs": {uo["unit"]: uo.get("unstable") for uo in unit_outs if uo.get("unstable")},
         "solver_time_s": round(sum(uo.get("solver_s", 0) for uo in unit_outs), 3),
         "unit_wall_s": {uo["unit"]: round(uo["wall_s"], 1) for uo in unit_outs},
         "known_findings_hit": [o["name"] for o, _ in known_hits],
